@@ -21,11 +21,11 @@ for d in sorted(glob.glob('/verif/seeded/C*')):
     baseline_timeouts = {'test_div_extension','test_cyclic_recursion','test_recursive_recursive_verifier','test_recursive_verifier','test_recursive_verifier_one_lookup'}
     extra_fail = [f for f in (fails or '').split() if f.split('::')[-1] not in baseline_timeouts and f != 'none']
     meta = {
-        'property': sid.split('-')[0],
+        'property': sid[:3],
         'breaks': am.get('summary') or am.get('property'),
         'needs_to_manifest': am.get('needs'),
         'files': am.get('files'),
-        'produced_by': 'independent sub-agent given only the property text (prompt: tools/seed_prompts/%s.txt)' % sid.split('-')[0],
+        'produced_by': 'independent sub-agent given only the property text (prompt: tools/seed_prompts/%s.txt)' % sid,
         'what_i_ran': [
             'tools/confirm_seed.sh: demo on the pristine worktree, patch applied + demo again, the repository suite (cargo nextest, baseline command) on the seeded tree, then the registered quick checks through tools/run_on_tree.sh',
         ],
